@@ -67,6 +67,11 @@ pub fn cfg_for(prop: &'static str) -> FsxCfg {
             steps: (1, 40),
             ..base
         },
+        "C06" => FsxCfg {
+            profile: Profile { list: 14, find: 12, open_dir: 10, change_dir: 3, close_dir: 5, delete: 8, mkdir: 8, open: 12, close: 8, write: 6, read: 2, seek: 1, check_all: 0, ..Profile::mixed() },
+            steps: (1, 45),
+            ..base
+        },
         _ => base,
     }
 }
@@ -767,6 +772,7 @@ pub fn rule_for(prop: &str) -> &'static str {
         "C04" => "generated histories; every logged device write of every call classified by region/ownership against the pre-call image; non-trivial = partial-block write, allocation with <= 2 free clusters, or multi-partition device; distinct by (geometry, op-kind sequence, flags)",
         "C05" => "generated create/extend/truncate/delete/mkdir histories on tight volumes; FAT in-use set vs reachable chains whenever no file is open; out-of-space errors checked against a FAT scan taken before the call; non-trivial = allocation after a free or a space error reached; distinct by (geometry, op-kind sequence, flags)",
         "C16" => "generated FAT32 histories with correct/unknown/stale FSInfo; FAT copies compared after every call, FSInfo delta vs FAT-scan delta after every dirty flush / volume close; non-trivial = FSInfo checked after an allocation following a free; distinct by (geometry, op-kind sequence, flags)",
+        "C06" => "see run_c06",
         "C07" => "generated histories biased to opens/deletes/mkdirs with valid and invalid names; decision table from the Mode/Error docs; refused calls must leave the medium unchanged; non-trivial = at least one refused call; distinct by (geometry, op-kind sequence, set of (mode,state) cells hit)",
         _ => "generated histories",
     }
